@@ -44,7 +44,7 @@ PROP = {
         {"name": "c03.tiles", "model": False},    # the property evaluated on the implementation vs "all hold"
         {"name": "c03.next", "args_thorough": ["all"]},  # next(n) from every month of the selected years
     ],
-    "ops": c03_ops,
+    "ops": with_extra(c03_ops, eq_kinds=(6, 7)),
     "exhaustive": True,
     "rule": "c03.grid: all 270,081 (year, month) candidates for from_ym; c03.months: all 123,684 lunations (first day, length, index) and "
             "10,000 year records; c03.tiles: the property itself per lunation (abuts next, 29/30 days, numbering) and per year (12/13, "
